@@ -48,12 +48,13 @@ func checkResetCase(c ResetCase) (v resetVerdict) {
 		v.msg = "bad split"
 		return v
 	}
-	run := func(ops []POp, from int) (*parserExec, []any, error) {
+	run := func(ops []POp, from int, fillXor byte) (*parserExec, []any, error) {
 		x, err := newParserExec(c.Cfg)
 		if err != nil {
 			return x, nil, err
 		}
 		x.keepRes = true
+		x.capFillXor = fillXor
 		mark := 0
 		for i, op := range ops {
 			if i == from {
@@ -63,7 +64,7 @@ func checkResetCase(c ResetCase) (v resetVerdict) {
 		}
 		return x, x.results[mark:], nil
 	}
-	x1, r1, err := run(c.Ops, c.Split)
+	x1, r1, err := run(c.Ops, c.Split, 0)
 	if err != nil {
 		v.rejected = true
 		return v
@@ -72,7 +73,8 @@ func checkResetCase(c ResetCase) (v resetVerdict) {
 		v.dead = true
 		return v
 	}
-	_, r2, _ := run(c.Ops[c.Split:], 0)
+	// the twins' Reset slices differ in what their spare capacity holds
+	_, r2, _ := run(c.Ops[c.Split:], 0, 0x5a)
 	v.resultsAfter = len(r1)
 	v.h2Matches = countMatches(r1)
 	if !reflect.DeepEqual(r1, r2) {
@@ -80,7 +82,7 @@ func checkResetCase(c ResetCase) (v resetVerdict) {
 		v.msg = "after Reset the used parser and a new parser return different results: " + firstDiff(r1, r2)
 		return v
 	}
-	x3, r3, _ := run(c.Ops, 0)
+	x3, r3, _ := run(c.Ops, 0, 0xa5)
 	if !reflect.DeepEqual(x1.results, r3) && !x3.dead {
 		v.bad = true
 		v.msg = "two new parsers given the same calls return different results: " + firstDiff(x1.results, r3)
@@ -104,6 +106,7 @@ func c13Opts() histOpts {
 	o.parseNil = 1
 	o.maxOps = 16
 	o.resetNil, o.resetDat = 1, 1
+	o.tinyPct = 30
 	return o
 }
 
